@@ -84,6 +84,21 @@ func columnOfRows(query *Query, data any, name string) (any, error) {
 	return rs, nil
 }
 
+// groupSpellings are the other names a grouping column may have in the row of
+// its group: with or without the table's alias (uid and o.uid FROM orders o),
+// with the table's own name (orders.uid for uid FROM orders)
+func groupSpellings(query *Query, name string) []string {
+	switch {
+	case len(query.alias) > 0 && strings.HasPrefix(name, query.alias+"."):
+		return []string{strings.Trim(name[len(query.alias)+1:], "'")}
+	case len(query.alias) > 0:
+		return []string{qualifiedName(query.alias, name)}
+	case len(query.table) > 0 && !strings.HasPrefix(name, query.table+"."):
+		return []string{qualifiedName(query.table, name)}
+	}
+	return nil
+}
+
 // endsInMarker reports whether a selector ends at the back-navigation marker,
 // however it is spelled: `<-`, `<-.<-`, '<-', and with an empty continuation,
 // a trailing dot or blanks behind it (`<-::`, `<-.`, `<- `)
@@ -122,6 +137,14 @@ func ValueOf(query *Query, current Map, any any) (any, error) {
 			if rs == nil {
 				if flat, ok := current[string(value)]; ok {
 					return flat, nil
+				}
+				// and it may be spelled the other way than in GROUP BY
+				if _, grouped := current["*"].([]interface{}); grouped && query != nil {
+					for _, other := range groupSpellings(query, string(value)) {
+						if flat, ok := current[other]; ok {
+							return flat, nil
+						}
+					}
 				}
 			}
 			// a column named with the table's own name (users.id FROM users),
